@@ -208,14 +208,6 @@ def lag_exact(lag):
   return Fraction(wr) == Fraction(lag) - left and Fraction(wl) == 1 - Fraction(wr)
 
 
-def lag_known():
-  try:
-    d = json.load(open(os.path.join(os.path.dirname(os.path.dirname(os.path.abspath(__file__))), "known_findings.json")))
-    return any(e.get("id") == "C20-amdf-lag0-zero" for e in d.get("findings", []))
-  except Exception:
-    return False
-
-
 LAG0_WITNESS = True   # lag == 0 with zero != 0: recorded finding C20-amdf-lag0-zero
 
 
@@ -271,16 +263,18 @@ def known_amdf(c, o):
 CUTOFFS = [None, 0.3, 1.0, math.pi, math.pi / 2, 0.01, 0.0]
 
 
-def gen_env(tier, rng):
-  n = 8 if tier == "quick" else 90
-  for ci, cutoff in enumerate(CUTOFFS):
-    for s in ENVS:
+def gen_env_of(s):
+  def gen_env(tier, rng):
+    n = 6 if tier == "quick" else 50
+    for ci, cutoff in enumerate(CUTOFFS):
       if cutoff == 0.0 and s == "rms":
         continue  # the all-zero float output 0.0 ** .5 is a float, not a symbolic root
       for k in range(n):
-        xs = rand_xs(rng, None if k else 6)
+        # short inputs: every output multiplies the denominators by 2^53 or more
+        xs = rand_xs(rng, rng.choice([0, 1, 2, 3, 4, 5, 6, 7]) if k else 6)
         yield {"s": s, "cutoff": None if cutoff is None else float(cutoff).hex(), "xs": xs,
                "tags": ["env", s, "cutoff%d" % ci]}
+  return gen_env
 
 
 def _lowpass_coeffs(filt):
@@ -485,7 +479,9 @@ FAMILIES = {
   "mav": Family("mav", IMPORTS, "mvcase", "corr_mav", "holds_mav", gen_mav, run_mav, lit_mav, nt_mav),
   "acc": Family("acc", IMPORTS, "accase", "corr_acc", "holds_acc", gen_acc, run_acc, lit_acc),
   "amdf": Family("amdf", IMPORTS, "amcase", "corr_amdf", "holds_amdf", gen_amdf, run_amdf, lit_amdf, nt_amdf, known_amdf),
-  "env": Family("env", IMPORTS, "evcase", "corr_env", "holds_env", gen_env, run_env, lit_env, nt_env),
+  "env_rms": Family("env_rms", IMPORTS, "evcase", "corr_env", "holds_env", gen_env_of("rms"), run_env, lit_env, nt_env),
+  "env_abs": Family("env_abs", IMPORTS, "evcase", "corr_env", "holds_env", gen_env_of("abs"), run_env, lit_env, nt_env),
+  "env_squared": Family("env_squared", IMPORTS, "evcase", "corr_env", "holds_env", gen_env_of("squared"), run_env, lit_env, nt_env),
   "clip": Family("clip", IMPORTS, "clcase", "corr_clip", "holds_clip", gen_clip, run_clip, lit_clip, nt_clip),
   "zc": Family("zc", IMPORTS, "zccase", "corr_zc", "holds_zc", gen_zc, run_zc, lit_zc, nt_zc),
   "uw": Family("uw", IMPORTS, "uwcase", "corr_uw", "holds_uw", gen_uw, run_uw, lit_uw, nt_uw),
